@@ -91,11 +91,11 @@ def run(ctx):
     ctx.trusted.append("hand-written model coq/Model/Polynom.v (not generated from the Rust source): tied to /repo's current source by the per-run "
                        "correspondence of every modelled function on the three base fields and five extension fields")
     ctx.notes["proved_for_every_field_and_length"] = (
-        "eval, eval_many, add, sub, mul_by_scalar, mul, degree_of, remove_leading_zeros, div (+remainder layout, exact panic domain), "
-        "syn_div/syn_div_in_place (+remainder layout, exact panic domain), syn_div_roots_in_place (+panic domain), poly_from_roots "
-        "(independent of the uninitialised content), interpolate (distinct xs incl. 0; debug and release panic domains), batch_inversion, "
-        "get_power_series(_with_offset), add_in_place, mul_acc")
-    ctx.notes["tested_only"] = (
-        "interpolate_batch (unbounded spec not proved; bounded GF(7) agreement theorems + correspondence + falsifier), interpolate o eval_many = id, "
-        "exact-division corollaries, B != E instantiations (correspondence + falsifier), `concurrent` feature variants (other property)")
+        "eval, eval_many, add, sub, mul_by_scalar, mul (peval product AND convolution of coefficients), degree_of, remove_leading_zeros, "
+        "div (function identity, coefficient identity a_k = (q*b)_k + r_k, remainder layout, exact panic domain, uniqueness of (q,r), "
+        "EXACT division a = q0*b => q0 with zero remainder), syn_div/syn_div_in_place (remainder layout, exact panic domain, exact division "
+        "for every a >= 1), syn_div_roots_in_place (+panic domain, exact division), poly_from_roots (independent of the uninitialised content), "
+        "interpolate (distinct xs incl. 0; panic domains; uniqueness; interpolate o eval_many = id), interpolate_batch (= interpolate per row, any N, "
+        "any number of rows), batch_inversion, get_power_series(_with_offset), add_in_place, mul_acc, mixed eval<B,E> / mul_acc<F,E>")
+    ctx.notes["tested_only"] = "`concurrent` feature variants (other property)"
     ctx.notes["defects_repaired"] = "notes/C20.findings.json: F20a interpolate panics on X = 0; F20b mul([],[]); F20c div([],[c]); F20d get_power_series(_,0)"
